@@ -39,26 +39,40 @@ fn seeds(thorough: bool) -> Vec<Seed> {
             v.push(Seed { name: format!("v{}x{}", ver, n), needs: vec![], packet: fixed_distinct(ver, n, 3), boundaries: vec![] });
         }
     }
+    // template ids 400.. : disjoint from the ids of the context packets, so that every seed is valid in every context
     // V9: template packets, data packets (templates delivered before), mixed packets
     let reps = v9_reps();
     for (k, f) in reps.iter().enumerate() {
         if f.len == 0 {
             continue;
         }
-        let fields = vec![*f, reps[(k + 3) % reps.len()]];
-        let t = V9Set::Tpl(vec![V9Tpl { id: 256, fields: fields.clone() }], 0);
-        let d = V9Set::Data(256, crate::props::c04::body_for(&fields, 2, k % 4, None));
-        let tp = v9_packet(&V9Pkt::new(vec![t.clone()]));
-        let dp = v9_packet(&V9Pkt::new(vec![d.clone()]));
-        let td = v9_packet(&V9Pkt::new(vec![t, d]));
-        v.push(Seed { name: format!("v9-T-{}", k), needs: vec![], boundaries: v9_boundaries(&tp), packet: tp.clone() });
-        v.push(Seed { name: format!("v9-D-{}", k), needs: tp, boundaries: v9_boundaries(&dp), packet: dp });
-        v.push(Seed { name: format!("v9-TD-{}", k), needs: vec![], boundaries: v9_boundaries(&td), packet: td });
+        let partners: Vec<usize> = if thorough { (0..reps.len()).collect() } else { vec![(k + 3) % reps.len(), (k + 7) % reps.len()] };
+        for j in partners {
+            let fields = vec![*f, reps[j]];
+            let t = V9Set::Tpl(vec![V9Tpl { id: 400, fields: fields.clone() }], 0);
+            let d = V9Set::Data(400, crate::props::c04::body_for(&fields, 2, (k + j) % 4, None));
+            let tp = v9_packet(&V9Pkt::new(vec![t.clone()]));
+            let dp = v9_packet(&V9Pkt::new(vec![d.clone()]));
+            let td = v9_packet(&V9Pkt::new(vec![t, d]));
+            v.push(Seed { name: format!("v9-T-{}-{}", k, j), needs: vec![], boundaries: v9_boundaries(&tp), packet: tp.clone() });
+            v.push(Seed { name: format!("v9-D-{}-{}", k, j), needs: tp, boundaries: v9_boundaries(&dp), packet: dp });
+            v.push(Seed { name: format!("v9-TD-{}-{}", k, j), needs: vec![], boundaries: v9_boundaries(&td), packet: td });
+        }
     }
     {
-        let o = V9OptTpl { id: 258, scope: vec![fs(1, 4), fs(2, 2)], opts: vec![fs(34, 2), fs(36, 2)] };
-        let p = v9_packet(&V9Pkt::new(vec![V9Set::OptTpl(vec![o.clone(), V9OptTpl { id: 259, ..o.clone() }], 0), V9Set::Data(258, (0..10).map(|j| fill(4, j)).collect()), V9Set::Data(259, (0..12).map(|j| fill(5, j)).collect())]));
+        let o = V9OptTpl { id: 402, scope: vec![fs(1, 4), fs(2, 2)], opts: vec![fs(34, 2), fs(36, 2)] };
+        let p = v9_packet(&V9Pkt::new(vec![V9Set::OptTpl(vec![o.clone(), V9OptTpl { id: 403, ..o.clone() }], 0), V9Set::Data(402, (0..10).map(|j| fill(4, j)).collect()), V9Set::Data(403, (0..12).map(|j| fill(5, j)).collect())]));
         v.push(Seed { name: "v9-options".into(), needs: vec![], boundaries: v9_boundaries(&p), packet: p });
+        // two template records in one flowset, then data for each (one padded by 3)
+        let fa = vec![fs(8, 4), fs(7, 2), fs(4, 1)];
+        let fb = vec![fs(27, 16), fs(96, 5)];
+        let p = v9_packet(&V9Pkt::new(vec![
+            V9Set::Tpl(vec![V9Tpl { id: 400, fields: fa.clone() }, V9Tpl { id: 401, fields: fb.clone() }], 0),
+            V9Set::Data(400, crate::props::c04::body_for(&fa, 2, 2, None)),
+            V9Set::Data(401, crate::props::c04::body_for(&fb, 1, 3, None)),
+            V9Set::Data(400, crate::props::c04::body_for(&fa, 4, 0, None)),
+        ]));
+        v.push(Seed { name: "v9-two-templates-three-data-flowsets".into(), needs: vec![], boundaries: v9_boundaries(&p), packet: p });
     }
     // IPFIX
     let reps = ipfix_reps();
@@ -66,25 +80,41 @@ fn seeds(thorough: bool) -> Vec<Seed> {
         if f.len == 0 {
             continue;
         }
-        let fields = vec![*f, reps[(k + 5) % reps.len()]];
-        if crate::refmodel::ipfix_min_record(&fields) == 0 {
-            continue;
+        let partners: Vec<usize> = if thorough { (0..reps.len()).collect() } else { vec![(k + 5) % reps.len(), (k + 11) % reps.len()] };
+        for j in partners {
+            let fields = vec![*f, reps[j]];
+            if crate::refmodel::ipfix_min_record(&fields) == 0 {
+                continue;
+            }
+            let t = IpfixSet::Tpl(vec![IpfixTpl { id: 400, fields: fields.clone() }], 0);
+            let d = IpfixSet::Data(400, crate::props::c05::body_for(&fields, 2, (k + j) % 4, None));
+            let tp = ipfix_message(&IpfixMsg::new(vec![t.clone()]));
+            let dp = ipfix_message(&IpfixMsg::new(vec![d.clone()]));
+            let td = ipfix_message(&IpfixMsg::new(vec![t, d]));
+            v.push(Seed { name: format!("ipfix-T-{}-{}", k, j), needs: vec![], boundaries: vec![], packet: tp.clone() });
+            v.push(Seed { name: format!("ipfix-D-{}-{}", k, j), needs: tp, boundaries: vec![], packet: dp });
+            v.push(Seed { name: format!("ipfix-TD-{}-{}", k, j), needs: vec![], boundaries: vec![], packet: td });
         }
-        let t = IpfixSet::Tpl(vec![IpfixTpl { id: 256, fields: fields.clone() }], 0);
-        let d = IpfixSet::Data(256, crate::props::c05::body_for(&fields, 2, k % 4, None));
-        let tp = ipfix_message(&IpfixMsg::new(vec![t.clone()]));
-        let dp = ipfix_message(&IpfixMsg::new(vec![d.clone()]));
-        let td = ipfix_message(&IpfixMsg::new(vec![t, d]));
-        v.push(Seed { name: format!("ipfix-T-{}", k), needs: vec![], boundaries: vec![], packet: tp.clone() });
-        v.push(Seed { name: format!("ipfix-D-{}", k), needs: tp, boundaries: vec![], packet: dp });
-        v.push(Seed { name: format!("ipfix-TD-{}", k), needs: vec![], boundaries: vec![], packet: td });
     }
     {
-        let o = IpfixOptTpl { id: 258, scope_count: 1, fields: vec![fs(149, 4), fs(41, 2), fs(82, 65535)] };
+        let o = IpfixOptTpl { id: 402, scope_count: 1, fields: vec![fs(149, 4), fs(41, 2), fs(82, 65535)] };
         let body = crate::props::c05::body_for(&o.fields, 2, 0, None);
-        let p = ipfix_message(&IpfixMsg::new(vec![IpfixSet::OptTpl(vec![o], 0), IpfixSet::Data(258, body)]));
+        let p = ipfix_message(&IpfixMsg::new(vec![IpfixSet::OptTpl(vec![o.clone()], 0), IpfixSet::Data(402, body.clone())]));
         v.push(Seed { name: "ipfix-options".into(), needs: vec![], boundaries: vec![], packet: p });
         v.push(Seed { name: "ipfix-header-only".into(), needs: vec![], boundaries: vec![], packet: ipfix_message(&IpfixMsg::new(vec![])) });
+        // two template records in one set, an options template, data for each, a long-form variable-length value
+        let fa = vec![fs(8, 4), fs(7, 2), fs(4, 1)];
+        let fb = vec![fs(27, 16), fs(82, 65535)];
+        let mut body_b: Vec<u8> = (0..16).map(|j| fill(6, j)).collect();
+        body_b.extend(crate::wire::ipfix_field_bytes(&fs(82, 65535), &(0..300).map(|j| b'a' + (j % 26) as u8).collect::<Vec<u8>>(), true));
+        let p = ipfix_message(&IpfixMsg::new(vec![
+            IpfixSet::Tpl(vec![IpfixTpl { id: 400, fields: fa.clone() }, IpfixTpl { id: 401, fields: fb.clone() }], 0),
+            IpfixSet::OptTpl(vec![o], 0),
+            IpfixSet::Data(400, crate::props::c05::body_for(&fa, 3, 2, None)),
+            IpfixSet::Data(401, body_b),
+            IpfixSet::Data(402, body),
+        ]));
+        v.push(Seed { name: "ipfix-two-templates-options-three-data-sets-long-form".into(), needs: vec![], boundaries: vec![], packet: p });
     }
     if thorough {
         // maximal variable packets from the ladder
@@ -92,52 +122,71 @@ fn seeds(thorough: bool) -> Vec<Seed> {
         let n = (65535 - 24) / 4;
         v.push(Seed {
             name: "ipfix-max-records".into(),
-            needs: ipfix_message(&IpfixMsg::new(vec![IpfixSet::Tpl(vec![IpfixTpl { id: 256, fields: f.clone() }], 0)])),
+            needs: ipfix_message(&IpfixMsg::new(vec![IpfixSet::Tpl(vec![IpfixTpl { id: 400, fields: f.clone() }], 0)])),
             boundaries: vec![],
-            packet: ipfix_message(&IpfixMsg::new(vec![IpfixSet::Data(256, (0..n * 4).map(|j| fill(j / 251, j)).collect())])),
+            packet: ipfix_message(&IpfixMsg::new(vec![IpfixSet::Data(400, (0..n * 4).map(|j| fill(j / 251, j)).collect())])),
         });
     }
     v
 }
 
-const CTX: [&str; 3] = ["alone", "after a V5 packet", "after the template packet it needs (same buffer)"];
+/// contexts: 0 = alone; 1 = after a V5 packet; 2 = after the template packet it needs in the same buffer (seeds that need
+/// none: after a V7 packet); 3.. = after every sequence of one or two self-delimiting packets of the packet menu
+/// (whose template ids are disjoint from the seeds')
+struct Ctx {
+    name: String,
+    pkts: Vec<Vec<u8>>,
+    needs_in_buffer: bool,
+}
+fn contexts() -> Vec<Ctx> {
+    use crate::menu;
+    let mut v = vec![
+        Ctx { name: "alone".into(), pkts: vec![], needs_in_buffer: false },
+        Ctx { name: "after a V5 packet".into(), pkts: vec![fixed_distinct(5, 1, 77)], needs_in_buffer: false },
+        Ctx { name: "after the template packet it needs, same buffer (no template needed: after a V7 packet)".into(), pkts: vec![], needs_in_buffer: true },
+    ];
+    for a in 0..menu::SELF_DELIMITING {
+        v.push(Ctx { name: format!("after menu packet {}", menu::NAMES[a]), pkts: vec![menu::packet(a, 1)], needs_in_buffer: false });
+    }
+    for a in 0..menu::SELF_DELIMITING {
+        for b in 0..menu::SELF_DELIMITING {
+            v.push(Ctx { name: format!("after menu packets {} and {}", menu::NAMES[a], menu::NAMES[b]), pkts: vec![menu::packet(a, 1), menu::packet(b, 14)], needs_in_buffer: false });
+        }
+    }
+    v
+}
 
 #[derive(Clone)]
 struct Case {
     seed: usize,
     cut: usize,
-    /// 0 = alone; 1 = after a V5 packet; 2 = after the packet(s) it needs, same buffer; 3 = needs delivered in an earlier call
-    ctx: u8,
+    ctx: usize,
 }
 
-fn judge(sd: &Seed, c: &Case) -> Eval {
+fn judge(sd: &Seed, cx: &Ctx, c: &Case) -> Eval {
     let mut issues = vec![];
     let version = r16(&sd.packet, 0);
     let truncated = &sd.packet[..c.cut];
     let mut p = new_parser(None);
-    let mut prefix: Vec<u8> = vec![];
-    match c.ctx {
-        1 => {
-            if !sd.needs.is_empty() {
-                p.parse_bytes(&sd.needs);
-            }
-            prefix = fixed_distinct(5, 1, 77);
-        }
-        2 => prefix = sd.needs.clone(),
-        _ => {
-            if !sd.needs.is_empty() {
-                p.parse_bytes(&sd.needs);
-            }
-        }
+    let mut pkts: Vec<Vec<u8>> = cx.pkts.clone();
+    if cx.needs_in_buffer {
+        pkts = vec![if sd.needs.is_empty() { fixed_distinct(7, 1, 78) } else { sd.needs.clone() }];
+    } else if !sd.needs.is_empty() {
+        p.parse_bytes(&sd.needs);
     }
+    let prefix: Vec<u8> = pkts.concat();
+    let nprefix = pkts.len();
     // the un-truncated run from the same state (for "preceding elements unchanged" and the validity of the seed)
     let mut pfull = rebuild(&caches(&p), None);
     let mut full_in = prefix.clone();
     full_in.extend_from_slice(&sd.packet);
     let full = pfull.parse_bytes(&full_in);
-    let nprefix = NetflowParserResultCount::count(&prefix);
     if full.len() != nprefix + 1 || full.iter().any(|e| e.is_error()) {
-        panic!("C14 seed {} is not a valid packet in context {} ({} elements)", sd.name, c.ctx, full.len());
+        if c.ctx <= 2 {
+            panic!("C14 seed {} is not a valid packet in context {} ({} elements)", sd.name, c.ctx, full.len());
+        }
+        // a menu sequence that is itself not a sequence of valid packets from this state (V9 data before its template)
+        return Eval { key: 0, transitions: 1, issues, tags: vec!["context-not-a-sequence-of-valid-packets(skipped)"] };
     }
     let mut input = prefix.clone();
     input.extend_from_slice(truncated);
@@ -164,7 +213,7 @@ fn judge(sd: &Seed, c: &Case) -> Eval {
     if version != 9 {
         // templates carried by the context prefix are legitimately learned; compare with a run of the prefix alone
         let mut pref_only = new_parser(None);
-        if c.ctx != 2 && !sd.needs.is_empty() {
+        if !cx.needs_in_buffer && !sd.needs.is_empty() {
             pref_only.parse_bytes(&sd.needs);
         }
         pref_only.parse_bytes(&prefix);
@@ -173,50 +222,54 @@ fn judge(sd: &Seed, c: &Case) -> Eval {
         }
     }
     let key = h64(&(sd.name.as_str(), c.cut, c.ctx));
-    Eval { key, transitions: 2, issues, tags: vec![] }
-}
-
-// small helpers -------------------------------------------------------------------------------------------
-struct NetflowParserResultCount;
-impl NetflowParserResultCount {
-    /// number of packets in a context prefix (prefixes are built from whole packets: V5 or the needed template packet)
-    fn count(prefix: &[u8]) -> usize {
-        if prefix.is_empty() {
-            0
-        } else {
-            1
-        }
-    }
+    Eval { key, transitions: 2, issues, tags: vec![if nprefix >= 2 { "after-two-packets" } else if nprefix == 1 { "after-one-packet" } else { "alone" }] }
 }
 
 pub fn spaces(tier: &str) -> Vec<Box<dyn Space>> {
     let thorough = tier == "thorough";
     let sds = seeds(thorough);
-    let mut cases = vec![];
+    let ctxs = contexts();
+    let nctx = ctxs.len() as u64;
+    // (seed, cut) pairs; packets above 4000 bytes are cut alone only
+    let mut small: Vec<(u32, u32)> = vec![];
+    let mut big: Vec<(u32, u32)> = vec![];
     for (si, s) in sds.iter().enumerate() {
-        let ctxs: Vec<u8> = if s.needs.is_empty() { vec![0, 1] } else { vec![0, 1, 2] };
-        let big = s.packet.len() > 4000;
         for cut in 1..s.packet.len() {
             if s.boundaries.contains(&cut) {
                 continue;
             }
-            for ctx in &ctxs {
-                if big && *ctx != 0 {
-                    continue;
-                }
-                cases.push(Case { seed: si, cut, ctx: *ctx });
+            if s.packet.len() > 4000 {
+                big.push((si as u32, cut as u32));
+            } else {
+                small.push((si as u32, cut as u32));
             }
         }
     }
+    let nsmall = small.len() as u64 * nctx;
+    let total = nsmall + big.len() as u64;
+    let decode = move |i: u64| -> Case {
+        if i < nsmall {
+            let (s, c) = small[(i / nctx) as usize];
+            Case { seed: s as usize, cut: c as usize, ctx: (i % nctx) as usize }
+        } else {
+            let (s, c) = big[(i - nsmall) as usize];
+            Case { seed: s as usize, cut: c as usize, ctx: 0 }
+        }
+    };
     let sds = std::sync::Arc::new(sds);
-    let s2 = sds.clone();
-    vec![list_space(
-        &format!("every-cut-point-of-{}-valid-packets", sds.len()),
-        cases,
-        move |c: &Case| judge(&sds[c.seed], c),
-        move |c: &Case| {
+    let ctxs = std::sync::Arc::new(ctxs);
+    let (s2, c2, d2) = (sds.clone(), ctxs.clone(), decode.clone());
+    vec![space(
+        &format!("every-cut-point-of-{}-valid-packets-in-{}-contexts", sds.len(), nctx),
+        total,
+        move |i| {
+            let c = decode(i);
+            judge(&sds[c.seed], &ctxs[c.ctx], &c)
+        },
+        move |i| {
+            let c = d2(i);
             let sd = &s2[c.seed];
-            json!({"seed": sd.name, "cut": c.cut, "packet_len": sd.packet.len(), "context": CTX[c.ctx as usize], "templates_needed": hex(&sd.needs), "truncated_packet": short(&sd.packet[..c.cut])})
+            json!({"seed": sd.name, "cut": c.cut, "packet_len": sd.packet.len(), "context": c2[c.ctx].name, "context_packets": c2[c.ctx].pkts.iter().map(|p| hex(p)).collect::<Vec<_>>(), "templates_needed": hex(&sd.needs), "truncated_packet": short(&sd.packet[..c.cut])})
         },
     )]
 }
@@ -226,11 +279,11 @@ pub fn run(tier: &str) -> i32 {
         prop: "C14".into(),
         tier: tier.into(),
         level: "fault_enumeration",
-        rule: "every cut point strictly inside every seed packet (V5/V7 with 0,1,2,3,30(,max) records; V9 and IPFIX template, data, template+data, options packets over the class representatives), excluding V9 flowset boundaries, alone / after a V5 packet / after the template packet it needs; a case is distinct by (seed, cut, context)".into(),
-        bounds: json!({"contexts": 3, "max_packet": if tier == "thorough" {"datagram limit"} else {"30 records"}}),
+        rule: "every cut point strictly inside every seed packet (V5/V7 with 0,1,2,3,30(,max) records; V9 and IPFIX template, data, template+data packets over pairs of class representatives (quick: two partners per representative, thorough: all pairs), options packets, multi-template multi-data packets with padding and a long-form variable-length value), excluding V9 flowset boundaries, in every context: alone / after a V5 packet / after the template packet it needs in the same buffer / after every sequence of one or two self-delimiting packets of the 17-packet menu; oracle: exactly the context's packets, unchanged, then one error whose remaining bytes are the truncated packet, caches as after the context alone; a case is distinct by (seed, cut, context)".into(),
+        bounds: json!({"contexts": 3 + 17 + 289, "max_packet": if tier == "thorough" {"datagram limit"} else {"30 records"}}),
         assumptions: vec!["seed validity is checked at run time (the un-truncated packet must decode without error in the same context)".into()],
         trusted_base: vec!["c14::judge".into()],
-        required_tags: vec![],
+        required_tags: vec!["alone", "after-one-packet", "after-two-packets"],
         extra: Default::default(),
     };
     run_report(rep, spaces(tier))
